@@ -136,6 +136,13 @@ def run(tier: str) -> int:
         for vec in (({},) if name.startswith("dead:") else ({}, {"inline_functions": False})):
             items.append(("monitor", dict(name=name, sources=src, tier=tier, halt_on_fallthrough=False, opts=vec)))
             items.append(("src_vs_ic10", dict(name=name, sources=src, tier=tier, opts=vec)))
+    # call shapes around definition order (a caller defined before its callee is rejected by the pinned
+    # tree; if it is admitted, the callee must still be entered by calls only)
+    from .. import probes
+
+    for name, src in [x for x in probes.call_probes() if x[0].startswith(("call:forward_reference", "call:once_inlined", "call:nested"))]:
+        items.append(("monitor", dict(name=f"probe:{name}", sources=src, tier=tier, halt_on_fallthrough=False, opts={})))
+        items.append(("src_vs_ic10", dict(name=f"probe:{name}", sources=src, tier=tier, opts={})))
     items.append(("monitor", dict(name="witness:fallthrough", sources=WITNESS_FALLTHROUGH, tier=tier, halt_on_fallthrough=False)))
     items.append(("monitor", dict(name="witness:return_to_end", sources=WITNESS_RETURN, tier=tier, halt_on_fallthrough=False)))
     results = harness.pmap(e1.run_task, items)
